@@ -256,7 +256,7 @@ theorem C02_ternary_correct (c t f : Expr) (base : Nat) (cst : CState) (r : List
 /-! ### statements, end to end -/
 
 open EvalFilter.Exec in
-/-- **Assignments, if / else-if / else, while, foreach and return run exactly as the language defines.**  For every
+/-- **Assignments, if / else-if / else, while, foreach, switch and return run exactly as the language defines.**  For every
     script built from these over value-producing expressions (any size and nesting), compiled without the
     optimizer, for every host object, environment and host-function table: the run ends with exactly the
     outcome of the big-step semantics `execSs` - the statements the language selects, in order, a loop
@@ -352,6 +352,58 @@ theorem C02_foreach_start (M : Machine) (obj : HostVal) (f : Nat) (idx x : Str) 
     | error e => rfl
     | ok iv => simp only []; cases resetVal iv <;> rfl
 
+open EvalFilter.Exec in
+/-- … and for `switch`: the non-default cases are tried in source order, the expressions of a case left to
+    right; for each test the switch value is evaluated anew, then the case expression, and OpCase decides
+    (same type and text; else, for a regexp case, the match; else no); the FIRST test that succeeds runs
+    its block and the switch is over - exactly one arm runs; when none succeeds the default block runs -/
+theorem C02_switch_semantics (M : Machine) (obj : HostVal) (f : Nat) (v : Expr) (cs : List Case) (env : Env) (out : Str) :
+    execE M obj (f + 1) (.switchE v cs) env out =
+      (match execArms M obj f v cs env out with
+       | .done o => o
+       | .next env' out' => execDefaults M obj f cs env' out') := by
+  simp only [execE]
+  cases execArms M obj f v cs env out <;> rfl
+
+open EvalFilter.Exec in
+theorem C02_switch_test (M : Machine) (obj : HostVal) (f : Nat) (v e : Expr) (es : List Expr) (b : List Stmt) (env : Env) (out : Str) :
+    execArm M obj (f + 1) v (e :: es) b env out =
+      (match evalE M obj env v out with
+       | (.error x, o) => .done (.failed x env o)
+       | (.ok vv, o1) =>
+         match evalE M obj env e o1 with
+         | (.error x, o) => .done (.failed x env o)
+         | (.ok ev, o2) =>
+           match caseOp M vv ev with
+           | .error x => .done (.failed x env o2)
+           | .ok (t, o3) =>
+             if t.truthy then .done (execSs M obj f b env (o2 ++ o3))
+             else execArm M obj f v es b env (o2 ++ o3)) := by
+  simp only [execArm]
+  cases evalE M obj env v out with
+  | mk res o1 =>
+    cases res with
+    | error x => rfl
+    | ok vv =>
+      simp only []
+      cases evalE M obj env e o1 with
+      | mk res2 o2 =>
+        cases res2 with
+        | error x => rfl
+        | ok ev =>
+          simp only []
+          cases caseOp M vv ev with
+          | error x => rfl
+          | ok p => rfl
+
+open EvalFilter.Exec in
+/-- what OpCase decides -/
+theorem C02_case_decision (M : Machine) (val caseVal : Value) :
+    caseOp M val caseVal =
+      (if sameTypeAndText val caseVal then .ok (.bool true, [])
+       else if caseVal.isType .REGEXP then callMatch M val caseVal
+       else .ok (.bool false, [])) := rfl
+
 /-! the hypotheses of `C02_program_correct` are met by real scripts: `s = 0; foreach i, x in [5, 7] { s = s + i * x; } return s;` -/
 section nonvacuous
 open EvalFilter.Exec
@@ -374,6 +426,19 @@ private def compW : Compiled := match compileProgram progW with | .ok c => c | .
 example : pureSs progW = true := by decide
 example : compileProgram progW = .ok compW := by rfl
 example : ∃ e o, execSs (Api.newMachine compW false [] (fun _ => false)) .nilIface 12 progW {} [] = .returned (.int 1) e o :=
+  ⟨_, _, by rfl⟩
+/-- `k = 2; switch (k + 1) { case 1, 2 { return "a"; } case 3 { r = "b"; } default { r = "c"; } } return r;` -/
+private def progS : Program :=
+  [ .expr (.assign ['k'] (.intLit ['2'] 2)),
+    .expr (.switchE (.infix ['+'] (.ident ['k']) (.intLit ['1'] 1))
+      [ .mk false [.intLit ['1'] 1, .intLit ['2'] 2] [ .ret (.strLit ['a']) ],
+        .mk false [.intLit ['3'] 3] [ .expr (.assign ['r'] (.strLit ['b'])) ],
+        .mk true [] [ .expr (.assign ['r'] (.strLit ['c'])) ] ]),
+    .ret (.ident ['r']) ]
+private def compS : Compiled := match compileProgram progS with | .ok c => c | .error _ => ⟨[], [], []⟩
+example : pureSs progS = true := by decide
+example : compileProgram progS = .ok compS := by rfl
+example : ∃ e o, execSs (Api.newMachine compS false [] (fun _ => false)) .nilIface 12 progS {} [] = .returned (.str ['b']) e o :=
   ⟨_, _, by rfl⟩
 end nonvacuous
 
